@@ -91,16 +91,14 @@ def run(prop, tier, seed, replay=None):
                 if r["op"] == "merge" and r["out"] and r["keys"]:
                     bad = copy.deepcopy(r)
                     bad["out"][0]["dur"] += 1
+                    traces.append([copy.deepcopy(r)])      # control
                     traces.append([bad])
                     ncan += 1
                     break
     acc, rej, stats = tlc.judge("AwGroupingTrace", JUDGE, traces, tag="judge_c16", chunk=60)
     rep.add_judge_stats(stats)
     nreal = len(parts)
-    for ci in range(nreal, nreal + ncan):
-        if ci in acc:
-            raise tlc.TLCFailure("canary (group duration corrupted) accepted by the judge")
-    rep.notes["canaries_rejected"] = ncan
+    rep.notes["canaries_rejected"] = tlc.check_canary_pairs(acc, nreal, ncan, "group duration corrupted")
     byop = {}
     for c in cases:
         byop[c[0]] = byop.get(c[0], 0) + 1
